@@ -1,1 +1,7 @@
-//! helpers shared by the kolibrie-level monitors
+//! helpers shared by the kolibrie-level monitors: M-DATASET, query AST + printer,
+//! M-SPARQL reference evaluator, G-QUERY generator
+pub mod ds;
+pub mod msparql;
+pub mod qast;
+pub mod qgen;
+pub mod qshrink;
